@@ -43,6 +43,7 @@ type WorldCfg struct {
 	ElectionTick  int                `json:"election_tick"`
 	HeartbeatTick int                `json:"heartbeat_tick"`
 	Universe      int                `json:"universe"`
+	IDs           []uint64           `json:"ids"` // the node ids of the universe (IDs[i-1] is the i-th id)
 	Voters        []uint64           `json:"voters"`
 	Learners      []uint64           `json:"learners"`
 	Durable       bool               `json:"durable_membership"`
